@@ -81,7 +81,7 @@ struct RbHarness : Harness {
     std::vector<std::string> probes(const std::string &) const override {
         return {"override_eviction", "override_eviction_capacity_1", "put_on_full_dropped", "head_wrapped", "tail_wrapped", "get_on_empty", "clear", "iterator_across_wrap"};
     }
-    uint64_t runs(const std::string &, const Tier &t) const override { return t.thorough() ? 40000000 : 4000000; }
+    uint64_t runs(const std::string &, const Tier &t) const override { return t.thorough() ? 5000000 : 4000000; }
 
     Json describe(const std::string &) const override {
         Json d = Json::obj();
